@@ -127,21 +127,30 @@ def top_args(stmt):
     return [a.strip().replace("\u2192", "->") for a in args]
 
 
-def property_holds_emission(req, text):
+def property_holds_emission(req, text, lo="", up=""):
     """physical bounds: no policy argument; standard bounds: the policy expression verbatim as last argument;
-    one statement (two with the end-of-step value) of the declared kind; nothing without bounds"""
+    one statement (two with the end-of-step value) of the declared kind, checking the variable (then its
+    end-of-step value) against the declared bound(s) in the order (lower, upper); nothing without bounds"""
     stmts = [s for s in text.replace("\\n", "\n").split(";\n") if s]
     if not req["has"]:
         return stmts == []
     if len(stmts) != (2 if req["checkEnd"] else 1):
         return False
     nb = 2 if req["kind"] == "both" else 1
-    for s in stmts:
+    nt = req["type"] if req["scalar"] else "tfel::math::numeric_type<%s>" % req["type"]
+    want_bounds = {"lower": [lo], "upper": [up], "both": [lo, up]}[req["kind"]]
+    want_bounds = ["static_cast<%s>(%s)" % (nt, b) for b in want_bounds]
+    this = "this->" if req["addThis"] else ""
+    want_expr = [this + req["name"], this + req["name"] + "+this->d" + req["name"]]
+    want_label = ['"%s"' % req["name"], '"%s+d%s"' % (req["name"], req["name"])]
+    for k, s in enumerate(stmts):
         if "::" + SITE[req["kind"]] + "(" not in s or ("BoundsCheck<%s>" % req["dim"]) not in s:
             return False
         try:
             a = top_args(s)
         except ValueError:
+            return False
+        if a[0] != want_label[k] or a[1] != want_expr[k] or a[2:2 + nb] != want_bounds:
             return False
         if req["physical"]:
             if len(a) != 2 + nb:
@@ -307,7 +316,7 @@ def run(ck):
             break
         text = a[3]
         eclasses.add((q["scalar"], q["has"], q["kind"], q["addThis"], q["checkEnd"], q["physical"]))
-        holds = property_holds_emission(q, text) and int(a[0]) == q["scalar"]
+        holds = property_holds_emission(q, text, a[1], a[2]) and int(a[0]) == q["scalar"]
         if text != m or not holds:
             e_dis += 1
             key = "CodeGeneratorUtilities.cxx:%s:%s" % ("writePhysicalBoundsChecks" if q["physical"] else "writeBoundsChecks", q["kind"])
